@@ -168,7 +168,8 @@ def run_chunk(chunk, tier, seed):
             for noise in SF.NOISE_PATTERNS:
                 for tol in (1e-10, 1e-4):
                     for extra in (False, True):
-                        _do(acc, {"t": "opt", "kind": kind, "fam": fam, "n": n, "pert": pert, "noise": noise, "rad": 1.0, "tol": tol, "seed": seed, "distance_edges": extra})
+                        for fx in ("first", "last_pose"):
+                            _do(acc, {"t": "opt", "kind": kind, "fam": fam, "n": n, "pert": pert, "noise": noise, "rad": 1.0, "tol": tol, "seed": seed, "distance_edges": extra, "fix": fx})
     return acc
 
 
@@ -307,6 +308,14 @@ def _eval_opt(case):
     msgs = []
     spec_a, truth = c05.make_spec(case, numeric=False)
     spec_n, _ = c05.make_spec(case, numeric=True)
+    if case.get("fix") == "last_pose":
+        # the fixed vertex is listed LAST in the odometry edges that touch it (and is not the first vertex of the graph)
+        k = case["n"] - 1
+        for sp in (spec_a, spec_n):
+            sp["vertices"][0]["fixed"] = False
+            sp["vertices"][k]["fixed"] = True
+            sp["vertices"][k]["pose"] = list(truth[k][2])
+        truth = [truth[k]] + [t for i, t in enumerate(truth) if i != k]
     classes = ["opt:numeric_twin", "kind:" + case["kind"]]
     extra = []
     if case.get("distance_edges"):
